@@ -134,7 +134,7 @@ TOL_NET = 1e-13
 
 def plan(tier):
     if tier == "thorough":
-        return {"cases": 72000, "shards": 16, "budget_s": 800}
+        return {"cases": 60000, "shards": 16, "budget_s": 800}
     return {"cases": 2430, "shards": 8, "budget_s": 240}
 
 
